@@ -2,7 +2,8 @@
 import ast
 
 from ..model import AnalysisError
-from ..lib import FV, decode_new, decode_call, phi_members, is_sym, is_const, is_str, strip_stores, stores_of
+from ..lib import (FV, decode_new, decode_call, phi_members, is_sym, is_const, is_str, strip_stores, stores_of,
+                   find_assign, find_assigns, simple_assigns, local_term)
 from ..cfg import always_raises, walk_stmts
 from . import common as cm
 from . import geom
@@ -137,7 +138,7 @@ def d4_is_aligned(chk, repo):
         env = {"c": c_}
         diff = v.spec("np.subtract(getattr(self.region, c), getattr(other.region, c))", env=env)
         rem = v.spec("np.remainder(abs(D), self.cell)", env={"D": diff})
-        tol = v.ev.term(ast.Name(id="tol", ctx=ast.Load()), at=lp) if "tol" in v.ev._local_names else v.spec("tolerance")
+        tol = v.spec("tolerance")      # a local alias of the parameter resolves to the parameter itself
         want = v.spec("np.logical_and(np.greater(R, t), np.less(R, np.subtract(self.cell, t))).any()", env={"R": rem, "t": tol})
         for s2 in lp.body:
             if isinstance(s2, ast.If) and s2.body and isinstance(s2.body[-1], ast.Return):
@@ -192,9 +193,9 @@ def d5_persistence(chk, repo):
     ok = False
     if len(sts) == 1 and sts[0][1] == "subregions":
         t = l.term(sts[0][2], at=sts[0][0])
-        J = l.ev.term(ast.Name(id="subregions", ctx=ast.Load()), at=sts[0][0])
-        ok = l.eq(t, l.spec("{key: df.Region(**val) for key, val in J.items()}", env={"J": J})) and \
-            (decode_call(l.ctx, J) or ("",))[0] == "json.load"
+        jl = find_assign(l, lambda t_, s_: (decode_call(l.ctx, t_) or ("",))[0] == "json.load")
+        J = jl[2] if jl else l.ctx.const(0)
+        ok = jl is not None and l.eq(t, l.spec("{key: df.Region(**val) for key, val in J.items()}", env={"J": J}))
     chk.ob("io._MeshIO.load_subregions::through-setter", ok, "C14.D5",
            "loaded subregions must be rebuilt as Region(**entry) and assigned through self.subregions = ... (re-validated)", l.f)
     fn = FV(repo, "io._MeshIO._subregion_filename")
